@@ -36,24 +36,53 @@ static void throw_beh(const string& b) {
 static const char* BEH[] = {"returns", "throws_int", "exception", "logic_error", "invalid_argument", "out_of_range",
     "runtime_error", "range_error", "bad_alloc", "expectation_failed", "user_rt", "user_plain"};
 
+// Every helper is called in one of four contexts in rotation: plainly, inside a catch handler, from a destructor that
+// runs while another exception unwinds the stack (the failure is caught inside the destructor), and from a destructor on
+// normal scope exit.  The expectation must fail (or not) in exactly the same way everywhere.
+static int g_ctx = 0;
+struct AtExit {
+  function<void()>& f;
+  ~AtExit() { f(); }
+};
 static void record(const string& e, vt::J& j, uint64_t site_line, function<void()> call, const char* msg_expect) {
   string outcome = "none";
   uint64_t line = 0;
   bool file_ok = false, msg_ok = false;
-  try {
-    call();
-  } catch (const expectation_failed& ex) {
-    outcome = "expectation_failed";
-    line = ex.line;
-    file_ok = ex.file && string(ex.file) == __FILE__;
-    string what = ex.what();
-    msg_ok = msg_expect && what.find(msg_expect) != string::npos && what.find(__FILE__) != string::npos &&
-        what.find(to_string(site_line)) != string::npos;
-  } catch (const std::exception& ex) {
-    outcome = vt::exc_name(ex);
-  } catch (...) {
-    outcome = "other";
+  function<void()> run = [&] {
+    try {
+      call();
+    } catch (const expectation_failed& ex) {
+      outcome = "expectation_failed";
+      line = ex.line;
+      file_ok = ex.file && string(ex.file) == __FILE__;
+      string what = ex.what();
+      msg_ok = msg_expect && what.find(msg_expect) != string::npos && what.find(__FILE__) != string::npos &&
+          what.find(to_string(site_line)) != string::npos;
+    } catch (const std::exception& ex) {
+      outcome = vt::exc_name(ex);
+    } catch (...) {
+      outcome = "other";
+    }
+  };
+  int ctx = g_ctx;
+  if (ctx == 0) {
+    run();
+  } else if (ctx == 1) {
+    try {
+      throw 1;
+    } catch (int) {
+      run();
+    }
+  } else if (ctx == 2) {
+    try {
+      AtExit g{run};
+      throw 2;
+    } catch (int) {
+    }
+  } else {
+    AtExit g{run};
   }
+  j.num("ctx", ctx);
   j.str("outcome", outcome).num("line", (long long)line).num("site_line", (long long)site_line).num("file_ok", file_ok).num("msg_ok", msg_ok);
   tr.emit(j);
   tr.nontrivial(e + outcome);
@@ -99,6 +128,7 @@ int main(int argc, char** argv) {
   tr.open(argv[1]);
   tr.emit("{\"e\":\"Reset\"}");
   tr.histories++;
+  for (g_ctx = 0; g_ctx < 4; g_ctx++) {
   raises_row<std::exception>("exception");
   raises_row<std::logic_error>("logic_error");
   raises_row<std::invalid_argument>("invalid_argument");
@@ -124,6 +154,7 @@ int main(int argc, char** argv) {
     vt::J k;
     k.str("e", "rel").str("op", "expect").str("kind", "msg").num("a", v).num("b", 0);
     record("expect_msg", k, __LINE__, [&]() { expect_msg(v == 1, "custom message"); }, "custom message");
+  }
   }
   tr.stats();
   return 0;
